@@ -153,17 +153,16 @@ func runLBHealth(x *X) {
 			e := &interval[i]
 			if e.kind == "probe" {
 				touched[e.backend] = true
-				b := net.byName[e.backend]
 				pp := pendingProbe{backend: e.backend, seq: e.seq, doneAt: e.at}
 				switch e.note {
 				case "status", "conn":
 					pp.fail = true
 				case "slow":
-					if b.probeSlow > PT {
+					if slow := time.Duration(e.status) * time.Millisecond; slow > PT {
 						pp.fail = true
 						pp.doneAt = e.at + PT
 					} else {
-						pp.doneAt = e.at + b.probeSlow
+						pp.doneAt = e.at + slow
 					}
 				}
 				pprobes = append(pprobes, pp)
@@ -411,9 +410,18 @@ func runLBHealth(x *X) {
 			if !passive {
 				continue
 			}
+			// (in half of the runs one backend is spared: it answers well throughout, so whatever
+			// happens to the others at the race instant, nobody may be told "no healthy backend")
+			spared := -1
+			if nb >= 2 && c.Intn(2, "race-spares-one") == 1 {
+				spared = c.Intn(len(net.order), "race-spared")
+			}
 			net.mu.Lock()
-			for _, b := range net.order {
+			for k, b := range net.order {
 				b.mode = "s500"
+				if k == spared {
+					b.mode = "ok"
+				}
 			}
 			net.mu.Unlock()
 			lateD := W + time.Duration(100+c.Intn(400, "race-late-ms"))*time.Millisecond
@@ -438,6 +446,9 @@ func runLBHealth(x *X) {
 			}
 			net.mu.Unlock()
 			racers := 1 + c.Intn(3, "racers")
+			if spared >= 0 {
+				racers = 2 + c.Intn(5, "racers-many")
+			}
 			for j := 0; j < racers; j++ {
 				cl := manyClients[(j*5+i+3)%len(manyClients)]
 				s.Spawn("racer", func() {
